@@ -14,7 +14,7 @@ PART = {}
 BS = chr(92)
 ALPHA = "a \t'\"" + BS + "-"
 BOUNDS = {"quick": "totality: all strings of length <= 4 over {a,space,tab,',\",backslash,-}; unquoted split law: length <= 5 over {a,b,space,tab,-}; "
-                   "inverse law: 1 token <= 3 chars and 2 tokens <= 2 chars over {a,space,',\",backslash,=,-,e-acute}, both quote styles, 4 separators; "
+                   "inverse law: 1 token <= 3 chars and 2 tokens <= 2 chars over {a,space,',\",backslash,=,-,e-acute}, both quote styles, 6 separators; "
                    "StringArgs/ArgvArgs: 3 tokens <= 2 chars over {a,-}",
           "thorough": "totality: length <= 6; split law: length <= 7; inverse: 1 token <= 4, 2 tokens <= 3, 3 tokens <= 2; StringArgs/ArgvArgs: 4 tokens"}
 OUTSIDE = ["strings longer than the stated lengths (property says 7 for totality)", "tokens of 4-5 characters in lists of 3-4 tokens",
@@ -22,7 +22,7 @@ OUTSIDE = ["strings longer than the stated lengths (property says 7 for totality
 STUBS = []
 ASSUMPTIONS = ["quoting scheme of the statement: wrap in ' or \" and put a backslash before every embedded quote of either kind; a token is expressible iff it does not end in a backslash and has no backslash directly before a quote"]
 
-SEPS = [" ", "\t", "  ", "\n"]
+SEPS = [" ", "\t", "  ", "\n", "\x0c", " \x0b "]          # "any whitespace": also form feed / vertical tab
 
 
 def total(s: str) -> bool:
@@ -49,7 +49,7 @@ def total_twin(s: str) -> bool:
 def split_law(s: str) -> bool:
     """
     pre: len(s) == PART["n"]
-    pre: all(c in "ab \t-" for c in s)
+    pre: all(c in "ab \t-\x0c" for c in s)
     post: _
     """
     return TokenParser().parse(s) == s.split()
@@ -87,7 +87,7 @@ def inverse2(t1: str, t2: str, q1: bool, q2: bool, sep: int) -> bool:
     pre: len(t1) == PART["l1"] and len(t2) == PART["l2"]
     pre: all(c in TOK_ALPHA for c in t1) and all(c in TOK_ALPHA for c in t2)
     pre: expressible(t1) and expressible(t2)
-    pre: 0 <= sep <= 3
+    pre: 0 <= sep < len(SEPS)
     pre: PART.get("sep") is None or sep == PART["sep"]
     post: _
     """
@@ -172,17 +172,17 @@ def conditions(tier):
     conds.append({"name": "total_twin", "fn": total_twin, "timeout": t, "part": {"n": 3}, "expect": "refute", "bounds": "reachability twin"})
     for n in range(0, (5 if quick else 7) + 1):
         conds.append({"name": "split_law[len=%d]" % n, "fn": split_law, "timeout": t, "part": {"n": n},
-                      "bounds": "all strings of length %d over {a,b,space,tab,-}" % n})
+                      "bounds": "all strings of length %d over {a,b,space,tab,form feed,-}" % n})
     for n in range(0, (3 if quick else 4) + 1):
         conds.append({"name": "inverse1[len=%d]" % n, "fn": inverse1, "timeout": t, "part": {"n": n},
                       "bounds": "one expressible token of length %d, both quote styles" % n})
     nmax = 2 if quick else 3
     for l1 in range(0, nmax + 1):
         for l2 in range(0, nmax + 1):
-            for sep in ([None] if l1 + l2 < 3 else [0, 1, 2, 3]):
+            for sep in ([None] if l1 + l2 < 3 else range(len(SEPS))):
                 conds.append({"name": "inverse2[%d,%d%s]" % (l1, l2, "" if sep is None else ",sep%d" % sep), "fn": inverse2, "timeout": t,
                               "part": {"l1": l1, "l2": l2, "sep": sep},
-                              "bounds": "two expressible tokens of lengths %d,%d; 2x2 quote styles; %s" % (l1, l2, "4 separators" if sep is None else "separator %r" % SEPS[sep])})
+                              "bounds": "two expressible tokens of lengths %d,%d; 2x2 quote styles; %s" % (l1, l2, "6 separators" if sep is None else "separator %r" % SEPS[sep])})
     if not quick:
         for l1 in range(0, 3):
             for l2 in range(0, 3):
